@@ -30,6 +30,15 @@ func semStream(name string, mk func(r *rand.Rand) GenOpts) {
 			g.addCase("emit", f...)
 			g.addCase("run", f...)
 		}
+		if name == "sem-effects" {
+			// evaluation-order probes: every operand position of every statement kind holds a call that reports itself
+			for _, body := range orderProbes {
+				f := progFields("main.tsh", map[string]string{"main.tsh": orderPrelude + body}, false)
+				g.addCase("emit", f...)
+				g.addCase("run", f...)
+			}
+			g.meta["order_probes"] = len(orderProbes)
+		}
 		g.meta[name+"_features"] = feats
 		g.meta[name+"_avg_lines"] = fmt.Sprintf("%.1f", float64(lines)/float64(max1(n)))
 	}
@@ -125,4 +134,22 @@ var batchTargeted = []struct{ tag, src string }{
 	{"strings", "s := \"hello world\"\nprint(len(s), s[0:5], s[6], s[6:])\nt := s + \"!\"\nprint(t, t == s, t != s)\n"},
 	{"panic-in-function", "func f() {\n\tpanic(\"boom\")\n}\nprint(\"before\")\nf()\nprint(\"after\")\n"},
 	{"panic-top-level", "print(\"before\")\npanic(\"boom\")\nprint(\"after\")\n"},
+}
+
+const orderPrelude = "func t(k int) int {\n\tprint(\"t\", k)\n\treturn k\n}\nfunc ts(k int) string {\n\tprint(\"ts\", k)\n\treturn \"abcdef\"\n}\nfunc tb(k int, v bool) bool {\n\tprint(\"tb\", k)\n\treturn v\n}\n"
+
+var orderProbes = []string{
+	"xs := []int{t(1), t(2), t(3)}\nprint(xs[0], xs[1], xs[2])\n",
+	"xs := []int{0, 0, 0}\nxs[t(1)] = t(5)\nxs[t(0)] = t(2) + t(3)\nprint(xs[0], xs[1], xs[2])\n",
+	"xs := []int{}\nxs[t(0)] = t(7)\nxs[t(1)] = t(8)\nfor i := 0; i < len(xs); i++ {\n\tprint(i, xs[i])\n}\n",
+	"a, b := t(1), t(2)\na, b = t(b), t(a)\nprint(a, b)\n",
+	"print(t(1), t(2) + t(3), t(4) * (t(5) - t(6)))\n",
+	"s := ts(1)\nprint(s[t(1):t(3)])\nprint(len(ts(2)), t(3))\n",
+	"func two() (int, int) {\n\treturn t(8), t(9)\n}\nc, d := two()\nprint(c, d)\nc, d = two()\nprint(d, c)\n",
+	"if tb(1, true) && tb(2, false) || tb(3, true) {\n\tprint(\"yes\")\n} else if tb(4, true) {\n\tprint(\"no\")\n}\n",
+	"for i := t(0); i < t(2); i = i + t(1) {\n\tprint(\"i\", i)\n}\n",
+	"func add(a int, b int, c int) int {\n\treturn a + b + c\n}\nprint(add(t(1), add(t(2), t(3), t(4)), t(5)))\n",
+	"xs := []int{1, 2, 3}\nys := []int{0, 0}\nn := copy(ys, xs)\nprint(n, ys[t(0)], ys[t(1)], xs[t(2)])\n",
+	"switch t(2) {\ncase t(1):\n\tprint(\"one\")\ncase t(2):\n\tprint(\"two\")\ndefault:\n\tprint(\"other\")\n}\n",
+	"xs := []int{0, 0, 0}\nfunc put(i int, v int) {\n\txs[t(i)] = t(v) + xs[t(i)]\n}\nput(1, 4)\nput(1, 5)\nprint(xs[1])\n",
 }
